@@ -177,7 +177,16 @@ Definition k9 : bool :=
                     negb (has_impl c "Clone") && negb (has_impl c "Copy") && negb (has_impl c "Default")) key_holders &&
   forallb (fun c => str_in c key_holders) key_carriers.
 
-Definition wf_key_known : bool := k1 && k2 && k3 && k4 && k6 && k7 && k8 && k9.  (* everything but the known finding F4 *)
+(* K10: the entry points that acquire, or hand out what acquires, without taking a key — the raw lock itself (lock_api's
+   `lock` / `try_lock` on it are safe functions), the raw operations of the crate's RawLock trait, the guard factories and
+   the key-less try helpers — are unsafe or not public: otherwise a thread takes a lock and keeps a usable key *)
+Definition keyless_entries : list string :=
+  ["raw"; "raw_write"; "raw_try_write"; "raw_read"; "raw_try_read"; "guard"; "read_guard"; "data_mut"; "data_ref";
+   "try_lock_no_key"; "try_read_no_key"; "try_write_no_key"].
+Definition k10 : bool :=
+  forallb (fun f => implb (str_in (fn_name f) keyless_entries) (fn_unsafe f || negb (fn_public f))) fns.
+
+Definition wf_key_known : bool := k1 && k2 && k3 && k4 && k6 && k7 && k8 && k9 && k10.  (* everything but the known finding F4 *)
 Definition wf_key : bool := wf_key_known && k5.
 
 (* ---------------------------------------------------------------- C15: data confinement, as decidable conditions *)
@@ -275,7 +284,8 @@ Definition c14_offending_fns : list (string * string * string) :=
            (String.eqb (fn_owner f) "ThreadKey" && String.eqb (fn_name f) "get"))) ||
     (safe_public f && str_in (fn_name f) acquire_names && str_in (fn_owner f) lock_types && negb (fn_key_val f || fn_keyable_val f)) ||
     (safe_public f && fn_returns_guard f && negb (fn_key_val f)) ||
-    (safe_public f && fn_guard_val f && negb (fn_returns_key f))) fns).
+    (safe_public f && fn_guard_val f && negb (fn_returns_key f)) ||
+    (str_in (fn_name f) keyless_entries && negb (fn_unsafe f || negb (fn_public f)))) fns).
 Definition c14_offending_impls : list (string * string) :=
   filter (fun x => (str_in (fst x) key_carriers || str_in (fst x) hold_carriers || str_in (fst x) key_holders) &&
                    str_in (snd x) ["Clone"; "Copy"; "Default"; "IntoIterator"]) trait_impls ++
